@@ -17,7 +17,7 @@ def build_native(config="A", repo=None):
         return _built[key]
     d = build.workdir("native_" + config)
     flags = ["-std=c++17", "-I" + os.path.join(repo, "include"), "-Ofast", "-fno-vectorize"] + CONFIG_FLAGS[config]
-    srcs = build.sources(repo)
+    srcs = build.sources(repo, config)
     objs = []
     procs = []
     for s in srcs + [os.path.join(VERIF, "replay", "driver.cpp")]:
